@@ -1,7 +1,8 @@
 #!/usr/bin/env python3
-"""Generates engines/coro/selftest.json: each mutant is a textual replacement in the scratch worktree, recorded as a unified diff."""
+"""Generates engines/coro/selftest.json: each mutant is a textual replacement in the hooked tree (/repo + hooks.patch), recorded as a
+unified diff relative to that tree."""
 import json, os, subprocess, sys
-WT = sys.argv[1] if len(sys.argv) > 1 else "/tmp/wt_coro"
+WT = sys.argv[1] if len(sys.argv) > 1 else "/tmp/wt_coro2"      # the tree with hooks.patch applied
 here = os.path.dirname(os.path.abspath(__file__))
 M = []
 def mut(name, expect, what, *edits):
@@ -97,6 +98,33 @@ mut("value_not_forwarded_connect_awaitable", "violation", "connect_awaitable del
     (CA, """              unifex::set_value(
                   std::move(receiver), std::forward<result_type>(result));""",
          """              unifex::set_done(std::move(receiver));"""))
+# ---- defects of the stop-request thunk's join that only a concurrent stop request exposes (controlled-thread mode)
+mut("race_who_written_after_decrement", "violation", "whoToContinue_ (with its schedule point) is written after the refcount decrement in complete_and_choose_continuation",
+    (TK, """    UNIFEX_VERIF_YIELD("coro.sr.fin_who");
+    whoToContinue_ = whoToContinue;
+""", """"""),
+    (TK, """    UNIFEX_VERIF_YIELD("coro.sr.fin_fsub");
+    if (refCount_.fetch_sub(1, std::memory_order_acq_rel) == 1) {
+      frameState.restore_frame_state();""", """    UNIFEX_VERIF_YIELD("coro.sr.fin_fsub");
+    const bool lastRef = refCount_.fetch_sub(1, std::memory_order_acq_rel) == 1;
+    UNIFEX_VERIF_YIELD("coro.sr.fin_who");
+    whoToContinue_ = whoToContinue;
+    if (lastRef) {
+      frameState.restore_frame_state();"""))
+mut("race_stop_op_started_before_refcount", "violation", "stop_callback starts the deferred stop request before taking its reference",
+    (TK, """      UNIFEX_VERIF_YIELD("coro.sr.cb_fadd");
+      if (self->refCount_.fetch_add(1, std::memory_order_relaxed) == 0) {
+        return;
+      }
+
+      unifex::start(self->stopOperation_);""", """      unifex::start(self->stopOperation_);
+      UNIFEX_VERIF_YIELD("coro.sr.cb_fadd");
+      self->refCount_.fetch_add(1, std::memory_order_relaxed);"""))
+mut("race_callback_not_destroyed", "violation", "complete_and_choose_continuation no longer destroys the stop callback (it stays registered on the receiver's token)",
+    (TK, """    UNIFEX_VERIF_YIELD("coro.sr.fin_destruct");
+    callback_.destruct();
+""", """    UNIFEX_VERIF_YIELD("coro.sr.fin_destruct");
+"""))
 mut("benign_comment_and_reorder", "clean", "comment edits and a reordering of two independent statements in the task awaiter",
     (TK, """      auto& promise = thisCoro.promise();
       promise.continuation_ = h;""", """      auto& promise = thisCoro.promise();
@@ -107,17 +135,19 @@ mut("benign_comment_and_reorder", "clean", "comment edits and a reordering of tw
          """      auto continuation = h.promise().next();  // (benign) read before the frame goes away
       h.destroy();"""))
 
+import difflib
 out = []
 for m in M:
-    subprocess.run(["git", "-C", WT, "checkout", "--", "include", "source"], check=True)
-    base = subprocess.run(["git", "-C", WT, "diff"], capture_output=True, text=True).stdout
+    files = {}
     for f, old, new in m["edits"]:
         p = os.path.join(WT, f)
-        s = open(p).read()
-        assert s.count(old) == 1, (m["name"], f, s.count(old))
-        open(p, "w").write(s.replace(old, new))
-    d = subprocess.run(["git", "-C", WT, "diff"], capture_output=True, text=True).stdout
+        cur = files.get(f) or open(p).read()
+        assert cur.count(old) == 1, (m["name"], f, cur.count(old))
+        files[f] = cur.replace(old, new)
+    d = ""
+    for f, new in files.items():
+        a = open(os.path.join(WT, f)).read().splitlines(True)
+        d += "".join(difflib.unified_diff(a, new.splitlines(True), "a/" + f, "b/" + f))
     out.append(dict(name=m["name"], patch=d, expect=m["expect"], what=m["what"]))
-    subprocess.run(["git", "-C", WT, "checkout", "--", "include", "source"], check=True)
 json.dump(out, open(os.path.join(here, "selftest.json"), "w"), indent=1)
-print(len(out), "mutants written")
+print(len(out), "mutants written (patches are relative to the hooked tree %s)" % WT)
